@@ -165,15 +165,19 @@ class Check(PropCheck):
         n = 40000 if tier == 'thorough' else 5000
         for _ in range(n):
             cls = rng.choice(CLASSES)
-            yield Case({'text': self.random_text(rng), 'cls': cls, 'cfg': self.random_cfg(rng, cls),
-                        'entry': rng.choice(ENTRIES)}, 'random')
+            d = {'text': self.random_text(rng), 'cls': cls, 'cfg': self.random_cfg(rng, cls), 'entry': rng.choice(ENTRIES)}
+            r = rng.random()
+            if r < 0.3:
+                # the object has a history: it parsed something before, or it is an unpickled / copied parser
+                d['prov'] = rng.choice(('used', 'used-feed', 'pickled', 'copied') if cls in ('plain', 'indexed') else ('used', 'used-feed'))
+            yield Case(d, 'random')
 
     def nontrivial(self, d):
         return '<' in d['text'] or '&' in d['text']
 
     def features(self, d):
         t = d['text']
-        fs = ['cls:' + d['cls'], 'entry:' + d['entry'], 'len<=%d' % (10 * ((len(t) + 9) // 10))]
+        fs = ['cls:' + d['cls'], 'entry:' + d['entry'], 'object:' + d.get('prov', 'fresh'), 'len<=%d' % (10 * ((len(t) + 9) // 10))]
         for k, m in (('lt', '<'), ('amp', '&'), ('comment', '<!--'), ('doctype', '<!D'), ('pi', '<?'), ('nul', '\x00'),
                      ('script', '<script'), ('quote', '"')):
             if m in t:
@@ -198,6 +202,8 @@ class Check(PropCheck):
             yield dict(d, cfg={})
         if d['entry'] != 'parseStr':
             yield dict(d, entry='parseStr')
+        if d.get('prov'):
+            yield {k: v for k, v in d.items() if k != 'prov'}
 
     # ---- model side: plain and indexed parser -------------------------------------------------------------------
     def encode(self, d):
@@ -231,7 +237,7 @@ class Check(PropCheck):
     def impl_inproc(self, d):
         if d['cls'] not in ('plain', 'indexed'):
             return '(first (empty none))'
-        p = make(d['cls'], d['cfg'])
+        p = make_obj(d)
         try:
             self.parse(p, d, d['text'])
         except DebuggerEntered:
@@ -319,7 +325,7 @@ class Check(PropCheck):
 
     def oracle_once(self, d, budget):
         text = d['text']
-        obj = make(d['cls'], d['cfg'])
+        obj = make_obj(d)
         t0 = time.time()
         try:
             with Budget(budget * 4):
@@ -383,6 +389,33 @@ class Check(PropCheck):
                 if not isinstance(o, str):
                     return ('not-a-string', 'outerHTML of <%s> after %r is %s' % (e.tagName, text, type(o).__name__))
         return None
+
+
+def make_obj(d):
+    """the object under test, with the history the case asks for (`prov`): fresh; used before (a document left open, through
+    parseStr or feed — `feed` does not reset, so the earlier document is then part of the input: skipped for the model); an
+    unpickled or copied parser"""
+    import copy
+    import pickle
+    obj = make(d['cls'], d['cfg'])
+    prov = d.get('prov')
+    if prov in ('used', 'used-feed') and d['entry'] == 'feed':
+        pass        # feed() continues the document the object holds (no reset, by design): no earlier document then
+    elif prov == 'used':
+        try:
+            obj.parseStr('<!DOCTYPE used><section><pre><i>left open')
+        except Exception:
+            pass
+    elif prov == 'used-feed':
+        try:
+            obj.feed('<!DOCTYPE used><section><pre><i>left open')
+        except Exception:
+            pass
+    elif prov == 'pickled':
+        obj = pickle.loads(pickle.dumps(obj, 2))
+    elif prov == 'copied':
+        obj = copy.copy(obj)
+    return obj
 
 
 def _buffered_only(obj):
